@@ -24,8 +24,10 @@ public:
     static status assign_thread_info(Token& token) {
         for (auto&& elem : thread_info_table_) {
             if (elem.gain_the_right()) {
+                YK_VERIF(k_load, &elem, f_epoch, 0);
                 elem.set_begin_epoch(epoch_management::get_epoch());
                 token = &(elem);
+                YK_VERIF(k_note, &elem, f_enter, 0);
                 return status::OK;
             }
         }
@@ -83,6 +85,7 @@ public:
      */
     static status leave_thread_info(Token token) {
         auto* target = static_cast<thread_info*>(token);
+        YK_VERIF(k_note, target, f_leave, 0);
         target->set_begin_epoch(0);
         target->set_running(false);
         return status::OK;
